@@ -554,6 +554,9 @@ impl<Backing : AsRef<[u32]> + AsMut<[u32]>> DrawTarget<Backing> {
         }
         // make sure the path is closed
         self.close();
+        // the next path starts from scratch: its first point must not be inherited from this one
+        self.current_point = None;
+        self.first_point = None;
         // XXX: we'd like for this function to return the bounds of the path
     }
 
